@@ -174,7 +174,7 @@ def mon_conn(ops, impl):
             if rx != "-":
                 for f in rx.split(";"):
                     out.append((i, "mon_cn rx " + f))
-        if w[0] in ("cn_req", "cn_accept") and r.startswith("ok:"):
+        if w[0] in ("cn_req", "cn_reqc", "cn_accept") and r.startswith("ok:"):
             p = r.split(":")
             slots.append(int(p[2]))
         if w[0] == "cn_reset" and r == "ok" and int(w[1]) < len(slots):
